@@ -37,6 +37,9 @@ pub struct Gen<'a> {
     pub max_depth: usize,
     /// probability (percent) of deliberately ill-typed / out-of-bounds leaves
     pub hostility: u64,
+    /// how many deliberately invalid leaves one argument value may still get (large inputs would
+    /// otherwise never pass the payload type check)
+    pub invalid_budget: i32,
     /// what set-up did (for the evidence)
     pub used: Vec<&'static str>,
 }
@@ -69,11 +72,28 @@ pub fn typed<T: ManifestEncode>(t: &T) -> MV {
 
 impl<'a> Gen<'a> {
     pub fn new(w: &'a World, rng: &'a mut Rng) -> Gen<'a> {
-        Gen { w, rng, pre: vec![], blobs: vec![], n_buckets: 0, n_proofs: 0, n_reservations: 0, n_named: 0, affinity: vec![], bp_hint: None, names: vec![], budget: 400, max_depth: 10, hostility: 8, used: vec![] }
+        Gen { w, rng, pre: vec![], blobs: vec![], n_buckets: 0, n_proofs: 0, n_reservations: 0, n_named: 0, affinity: vec![], bp_hint: None, names: vec![], budget: 400, max_depth: 10, hostility: 8, invalid_budget: 1, used: vec![] }
     }
 
     fn hostile(&mut self) -> bool {
-        self.rng.below(100) < self.hostility
+        if self.invalid_budget <= 0 {
+            return false;
+        }
+        if self.rng.below(100) < self.hostility {
+            self.invalid_budget -= 1;
+            true
+        } else {
+            false
+        }
+    }
+
+    fn rarely_invalid(&mut self, den: u64) -> bool {
+        if self.invalid_budget > 0 && self.rng.chance(1, den) {
+            self.invalid_budget -= 1;
+            true
+        } else {
+            false
+        }
     }
 
     fn a0(&self) -> ComponentAddress {
@@ -815,7 +835,7 @@ impl<'a> Gen<'a> {
                     fields.push(self.value(s, *f, depth + 1, &h, false));
                 }
                 // wrong arity, rarely
-                if !in_collection && self.rng.chance(1, 200) {
+                if !in_collection && self.rarely_invalid(200) {
                     if self.rng.bool() {
                         fields.pop();
                     } else {
@@ -828,7 +848,7 @@ impl<'a> Gen<'a> {
                 if variants.is_empty() {
                     return MV::Enum { discriminator: 0, fields: vec![] };
                 }
-                if self.rng.chance(1, 60) {
+                if self.rarely_invalid(60) {
                     // unknown discriminator
                     let d = (0..=255u8).rev().find(|d| !variants.contains_key(d)).unwrap_or(255);
                     return MV::Enum { discriminator: d, fields: vec![] };
@@ -882,7 +902,7 @@ impl<'a> Gen<'a> {
                 ScryptoCustomTypeKind::Own => {
                     let k = Self::own_kind(validation);
                     // a wrong kind of owned node, sometimes (only where the kind is not fixed by a parent collection)
-                    let k = if !in_collection && self.rng.chance(1, 50) {
+                    let k = if !in_collection && self.rarely_invalid(50) {
                         *self.rng.pick(&[ManifestCustomValueKind::Bucket, ManifestCustomValueKind::Proof, ManifestCustomValueKind::AddressReservation])
                     } else {
                         k
